@@ -268,6 +268,12 @@ class Term(NamedTuple):
         if isinstance(self.index_, str):
             return f"self['{self.name}', {self.index_}]"
 
+        # A name with a leading underscore would become `self.__name`, which
+        # Python treats as a private name in the body of the model class (and
+        # mangles to `self._Model__name`): access by key instead
+        if self.name.startswith('_'):
+            return f"self.__dict__['_{self.name}']" + code[len(self.name):]
+
         # Otherwise, access as a regular internal variable
         return 'self._' + code
 
